@@ -102,6 +102,28 @@ pub fn cmd_exec(args: &[String]) -> i32 {
     0
 }
 
+/// driver gen-secrets --seed S --count K : K generated 64-byte secrets (hex), after the fixed extremes
+/// (all-zero, all-ones, the nibble patterns that drive table lookups to their extremes)
+pub fn cmd_gen_secrets(args: &[String]) -> i32 {
+    let seed: u64 = arg_after(args, "--seed").and_then(|s| s.parse().ok()).unwrap_or(0);
+    let count: usize = arg_after(args, "--count").and_then(|s| s.parse().ok()).unwrap_or(2);
+    for b in [0x00u8, 0xff, 0x88, 0x77, 0x80, 0x01] {
+        println!("{}", crate::util::hex(&[b; 64]));
+    }
+    let mut runner = TestRunner::new(Config { rng_seed: RngSeed::Fixed(seed ^ 0xc10c10), failure_persistence: None, ..Config::default() });
+    let s = prop_oneof![
+        3 => crate::gens::u512_interesting(),
+        2 => (crate::gens::scalar_digits(), crate::gens::scalar_word_edges()).prop_map(|(a, b)| crate::gens::join64(&a, &b)),
+        2 => any::<[u8; 32]>().prop_map(|a| crate::gens::join64(&a, &a)),
+        1 => (0usize..512).prop_map(|k| { let mut x = [0u8; 64]; x[k / 8] = 1 << (k % 8); x }),
+    ];
+    for _ in 0..count {
+        let v = s.new_tree(&mut runner).expect("generate").current();
+        println!("{}", crate::util::hex(&v));
+    }
+    0
+}
+
 /// driver exec-one --req JSON [--force K]  (used when replaying a cross-configuration difference)
 pub fn cmd_exec_one(args: &[String]) -> i32 {
     let v: Value = serde_json::from_str(&arg_after(args, "--req").expect("--req")).expect("json");
